@@ -11,6 +11,12 @@ func genSpec(text, technique, rule string, assumptions []string, floors []floor,
 	if o.TSets == nil {
 		o.TSets = []string{"cases", "goldmaster", "sink", "schema"}
 	}
+	if o.QRand == 0 { // every generated-code property also runs on freshly drawn random schemas (randset.go)
+		o.QRand = 1
+	}
+	if o.TRand == 0 {
+		o.TRand = 6
+	}
 	if o.QShards == 0 {
 		o.QShards = 6
 	}
